@@ -10,6 +10,7 @@
 import os
 import math
 from copy import deepcopy
+from fractions import Fraction
 from functools import reduce
 from .exceptions import GeomdlException
 from . import _linalg
@@ -778,7 +779,7 @@ def convex_hull(points):
         return (a > b) - (a < b)
 
     def turn(p, q, r):
-        return cmp((q[0] - p[0])*(r[1] - p[1]) - (r[0] - p[0])*(q[1] - p[1]), 0)
+        return cmp(is_left(p, q, r), 0)
 
     def keep_left(hull, r):
         while len(hull) > 1 and turn(hull[-2], hull[-1], r) != turn_left:
@@ -808,7 +809,29 @@ def is_left(point0, point1, point2):
         =0 for P2 on the line
         <0 for P2 right of the line
     """
-    return ((point1[0] - point0[0]) * (point2[1] - point0[1])) - ((point2[0] - point0[0]) * (point1[1] - point0[1]))
+    det_left = (point1[0] - point0[0]) * (point2[1] - point0[1])
+    det_right = (point2[0] - point0[0]) * (point1[1] - point0[1])
+    det = det_left - det_right
+
+    # The sign of the floating point result is correct if it is bigger than the bound of its round-off error
+    # (J. R. Shewchuk, Adaptive Precision Floating-Point Arithmetic and Fast Robust Geometric Predicates)
+    err_bound = 3.3306690738754716e-16 * (abs(det_left) + abs(det_right))
+    if abs(det) > err_bound:
+        return det
+
+    # Otherwise, evaluate the determinant exactly
+    try:
+        p0, p1, p2 = [[Fraction(c) for c in pt[0:2]] for pt in (point0, point1, point2)]
+    except (TypeError, ValueError, OverflowError):
+        return det
+    det_exact = ((p1[0] - p0[0]) * (p2[1] - p0[1])) - ((p2[0] - p0[0]) * (p1[1] - p0[1]))
+    if det_exact == 0:
+        return 0.0
+    det = float(det_exact)
+    if det == 0.0:
+        # The exact value is too small for a float but its sign is known
+        return 5e-324 if det_exact > 0 else -5e-324
+    return det
 
 
 def wn_poly(point, vertices):
